@@ -20,6 +20,7 @@ func init() {
 			c.run("C02-6", "GUARD-DOM: decode failures are errors (unknown escape code, leftover bytes, reader error cancels)", c02Decode)
 			c.run("C02-7", "GUARD-DOM: EOF before the announced length is an error", c02ShortSource)
 			c.run("C02-9", "GUARD-DOM: after a resume the receiver cross-checks the sender's remaining size against its own truncation offset", c02Resume)
+			c.run("C02-10", "GUARD-DOM: protocol-1 data loops send/write, hash and count the same chunk and stop at the announced size", c02V1Stream)
 			c.run("C02-8", "MUST-PASS: no error result of the transfer layer is dropped; every nil-test's non-nil edge fails", c02ErrorDiscipline)
 		})
 }
@@ -805,6 +806,32 @@ func c02Resume(c *Ctx) {
 	}
 	short := fld[strings.Index(fld, ".")+1:]
 	rs := c.fn("trzszTransfer.recvFileSize")
+	// the recorded remainder is consumed by the comparison: on the edge where it was found set (>= 0) it is
+	// reset to a negative value before the function returns, so it cannot be compared with the next file's size
+	for _, b := range rs.Blocks {
+		i := blockIf(b)
+		if i == nil {
+			continue
+		}
+		op, x, y, ok := cmpFact(normFact(fact{V: i.Cond, Pol: true}))
+		if !ok || !isFieldLoad(short)(x) || !isConstIntV(0)(y) || (op != token.GEQ && op != token.LSS) {
+			continue
+		}
+		k := 0
+		if op == token.LSS {
+			k = 1
+		}
+		hit, path := reachFromE(b.Succs[k], 0, isReturn, func(in ssa.Instruction) bool {
+			st, isSt := in.(*ssa.Store)
+			if !isSt {
+				return false
+			}
+			nm, _ := fieldAddrName(st.Addr)
+			z, isZ := constInt(st.Val)
+			return nm == fld && isZ && z < 0
+		}, nil)
+		c.check(hit == nil, "recvFileSize/remainder-consumed", c.ipos(i), "the recorded remainder is reset on every path that found it set", "the recorded remainder survives the comparison: the next file's size is compared with this file's remainder", c.pathStr(path)...)
+	}
 	sz := callsWithConstArg(rs, tT+"recvInteger", 1, "SIZE")
 	if len(sz) != 1 {
 		c.lost("recvInteger(\"SIZE\") in recvFileSize")
@@ -851,5 +878,118 @@ func c02Resume(c *Ctx) {
 	})
 	if n < 2 {
 		c.undecided("recvFileSize/exits", "expected the SUCC echo and the success return")
+	}
+}
+
+// isAccumulator: v is acc+n where acc is a phi whose edges are 0 and v itself (a running total of n).
+func isAccumulator(v ssa.Value, isN func(ssa.Value) bool) (*ssa.Phi, bool) {
+	b, ok := strip(v).(*ssa.BinOp)
+	if !ok || b.Op != token.ADD {
+		return nil, false
+	}
+	for _, pair := range [][2]ssa.Value{{b.X, b.Y}, {b.Y, b.X}} {
+		ph, isPhi := strip(pair[0]).(*ssa.Phi)
+		if !isPhi || !isN(pair[1]) {
+			continue
+		}
+		good := true
+		for _, e := range ph.Edges {
+			if z, ok := constInt(e); ok && z == 0 {
+				continue
+			}
+			if strip(e) != ssa.Value(b) {
+				good = false
+			}
+		}
+		if good {
+			return ph, true
+		}
+	}
+	return nil, false
+}
+
+// c02V1Stream: the protocol-1 data loops (no pipeline). One slice per iteration is what is sent / written,
+// hashed and counted; the loop runs while the running total is below the announced size; the digest
+// returned is that hasher's.
+func c02V1Stream(c *Ctx) {
+	type side struct {
+		fn      string
+		source  string // call producing the chunk
+		sinks   []string
+		lenArgs map[string]int // call -> index of the length argument that must be len(chunk)
+	}
+	for _, s := range []side{
+		{"trzszTransfer.sendFileData", "invoke trzsz.fileReader.Read", []string{tT + "sendData", "invoke hash.Hash.Write"}, map[string]int{tT + "checkInteger": 1}},
+		{"trzszTransfer.recvFileData", tT + "recvData", []string{"trzsz.writeAll", "invoke hash.Hash.Write"}, map[string]int{tT + "sendInteger": 2}},
+	} {
+		f := c.fn(s.fn)
+		fname := c.fnName(f)
+		src := callsIn(f, idIs(s.source))
+		if len(src) != 1 {
+			c.lost("the chunk source in " + s.fn)
+		}
+		sc := src[0].(*ssa.Call)
+		// the chunk value
+		var isChunk func(v ssa.Value) bool
+		var isLen func(v ssa.Value) bool
+		if s.source == tT+"recvData" {
+			chunk := extractOf(sc, 0)
+			isChunk = func(v ssa.Value) bool { return sameValue(v, chunk) }
+			isLen = func(v ssa.Value) bool {
+				call, _ := callOf(v)
+				return call != nil && calleeID(&call.Call) == "builtin len" && isChunk(call.Call.Args[0])
+			}
+		} else {
+			n := extractOf(sc, 0)
+			buf := sc.Call.Args[0]
+			isChunk = func(v ssa.Value) bool {
+				sl, ok := strip(v).(*ssa.Slice)
+				return ok && sl.Low == nil && sl.High != nil && sameValue(sl.High, n) && sameValue(sl.X, buf)
+			}
+			isLen = func(v ssa.Value) bool { return sameValue(strip(v), n) }
+		}
+		for _, id := range s.sinks {
+			calls := callsIn(f, idIs(id))
+			good := len(calls) == 1
+			if good {
+				args := calls[0].Common().Args
+				good = isChunk(args[len(args)-1]) && domI(sc, calls[0].(ssa.Instruction))
+			}
+			c.check(good, fname+"/chunk->"+shortID(id), c.pos(f.Pos()), "the chunk of this iteration is what goes to "+shortID(id), "what goes to "+shortID(id)+" is not exactly the chunk read/received in this iteration")
+		}
+		for id, idx := range s.lenArgs {
+			for _, ci := range callsIn(f, idIs(id)) {
+				c.check(isLen(ci.Common().Args[idx]), fname+"/len->"+shortID(id), c.ipos(ci), "the length acknowledged/checked is the chunk's length", "the length acknowledged/checked is not the chunk's length")
+			}
+		}
+		// the loop: while total < size, total += len(chunk)
+		var acc *ssa.Phi
+		eachInstr(f, func(in ssa.Instruction) {
+			if b, ok := in.(*ssa.BinOp); ok && acc == nil {
+				if ph, ok := isAccumulator(b, isLen); ok {
+					acc = ph
+				}
+			}
+		})
+		c.check(acc != nil, fname+"/total+=len", c.pos(f.Pos()), "a running total accumulates each chunk's length", "no running total of the chunk lengths: the loop cannot know when the announced size is reached")
+		if acc != nil {
+			// the source call runs only while total < size, and the digest return only when total >= size
+			lt := factCmp(factsAt(sc.Block()), token.LSS, isValue(acc), anyValue)
+			c.check(lt, fname+"/reads-while-short", c.ipos(sc), "a chunk is read only while the total is below the announced size", "a chunk is read without the total being below the announced size")
+			eachInstr(f, func(in ssa.Instruction) {
+				r, ok := in.(*ssa.Return)
+				if !ok || !isNilErrReturn(in) {
+					return
+				}
+				ge := factCmp(factsAt(in.Block()), token.GEQ, isValue(acc), anyValue)
+				sum, _ := callOf(retVal(r, 0))
+				goodSum := sum != nil && calleeID(&sum.Call) == "invoke hash.Hash.Sum"
+				if goodSum {
+					hw := callsIn(f, idIs("invoke hash.Hash.Write"))
+					goodSum = len(hw) == 1 && hw[0].Common().Value == sum.Call.Value
+				}
+				c.check(ge && goodSum, fname+"/digest-at-end", c.ipos(in), "the digest of the hasher that saw every chunk is returned once the total reached the size", "success is returned before the total reached the size, or with another hasher's digest")
+			})
+		}
 	}
 }
